@@ -1460,6 +1460,13 @@ func (e *Entry) Find(name string) *Entry {
 			if root, ok := e.Node.(*Module); !ok || m != root {
 				e = ToEntry(m)
 			}
+		} else if root, ok := e.Node.(*Module); ok {
+			// A path without prefix names nodes of the current module. Written
+			// in a submodule, that is the module the submodule belongs to, not
+			// the tree of the submodule taken by itself.
+			if owner := belongingModule(root); owner != nil {
+				e = ToEntry(owner)
+			}
 		}
 	}
 
